@@ -257,6 +257,31 @@ class Ctx:
             self.obligations.append(Obligation(label, "discharged", path, which, dt + dt2, None, None))
             self.solver.add(cond)
             return "discharged"
+        if (self.solver.reason_unknown() or "").find("timeout") >= 0 or "timeout" in (reason or ""):
+            # every back end ran out of its (wall-clock) budget: on a loaded machine a query that takes a second can. One last
+            # attempt with six times the budget on a fresh solver, so that the verdict does not depend on what else is running.
+            s3 = z3.Solver()
+            s3.set("timeout", self.timeout_ms * 6)
+            s3.add(self.solver.assertions())
+            s3.add(self.deferred)
+            s3.add(z3.Not(cond))
+            t3 = time.time()
+            r3 = s3.check()
+            dt3 = time.time() - t3
+            self.solver_calls += 1
+            self.solver_time += dt3
+            if r3 == z3.unsat:
+                self.memo[key] = "discharged"
+                self.obligations.append(Obligation(label, "discharged", path, "z3-retry", dt + dt2 + dt3, None, None))
+                self.solver.add(cond)
+                return "discharged"
+            if r3 == z3.sat:
+                ob = Obligation(label, "refuted", path, "z3-retry", dt + dt2 + dt3, self._model_inputs(s3.model()), None)
+                self.obligations.append(ob)
+                self.solver.add(cond)
+                if self._check() == z3.unsat:
+                    raise PathEnd("obligation false on whole path")
+                return "refuted"
         self.obligations.append(Obligation(label, "unknown", path, which, dt + dt2, None, None,
                                            reason=reason or self.solver.reason_unknown()))
         self.solver.add(cond)
